@@ -1,3 +1,154 @@
-import DnsModel.Script
+/-
+  C09 — Each mutation has exactly its stated effect; the rest is untouched.
+
+  The decoded message of a pointer-free packet object is read off its representation `PlainObj`
+  (Lemmas/InsertRec.lean): header `hdr`, question labels `qls` and type/class bytes `q4`, and the three
+  lists of record pieces `lst .answer / .nameServers / .additional`, each piece being the canonical
+  (pointer-free) wire form of one record.  "Exactly its stated effect" is an equation between these
+  components before and after the call:
+
+  * `insert_exact_*`  — the given record is appended at the end of the chosen section, that section's
+    count goes up by one, everything else is equal;
+  * `delete_exact`    — the record under the cursor goes, that section's count goes down by one;
+  * `set_ttl_exact`, `set_ip_exact` — the four TTL bytes / the address bytes of that record change;
+  * `set_name_exact`  — the owner name of that record is replaced;
+  * `header_exact`    — a header setter changes bytes 0–3 of the header only (which bits: C12);
+  * `first_touch`, `set_name_flagged`, `delete_flagged` — on an object that still has its parse-time
+    flag (compressed or not) the first `set_raw_name` / `delete` first turns the object into the
+    plain object of the canonical pieces (names compared after decompression), then acts as above.
+
+  Excluded by hypothesis (known findings, by design): the OPT pseudo-record as the target of
+  set-name / set-TTL (KF5), clearing QR while answers exist (KF3), the question section as the
+  target of delete (KF1).  In-place setters on a still-compressed object (KF2 aliasing) and rename /
+  recompute at object level are covered by the script correspondence, not by these theorems.
+-/
+import DnsModel.Lemmas.SetName
+import DnsModel.Lemmas.HeaderSet
+import DnsModel.Lemmas.DeleteWalk
 namespace Dns.C09
+open Dns Res
+
+/-- **insert (answer)** -/
+theorem insert_exact_answer {pp : PP} (P : PlainObj pp) (rr : Bytes) (hpc : PieceOK .answer rr P.o2 P.o2)
+    (hsize : pp.packet.length + rr.length ≤ 8192) (hcount : P.A.length < 65535) (hqr : get16 P.hdr 2 / 32768 % 2 = 1) :
+    ∃ (pp' : PP) (P' : PlainObj pp'), insertRR pp .answer rr = .ok (pp', none) ∧
+      P'.A = P.A ++ [rr] ∧ P'.N = P.N ∧ P'.R = P.R ∧ P'.qls = P.qls ∧ P'.q4 = P.q4 ∧
+      (∀ k, (k + 1 < 6 ∨ 6 + 1 < k) → get16 P'.hdr k = get16 P.hdr k) := by
+  obtain ⟨pp', P', h, a, b, c, d, e, f, _⟩ := insert_answer P rr hpc hsize hcount hqr
+  exact ⟨pp', P', h, a, b, c, d, e, f⟩
+
+/-- **insert (authority)** -/
+theorem insert_exact_authority {pp : PP} (P : PlainObj pp) (rr : Bytes) (hpc : PieceOK .nameServers rr P.o3 P.o3)
+    (hsize : pp.packet.length + rr.length ≤ 8192) (hcount : P.N.length < 65535) (hqr : get16 P.hdr 2 / 32768 % 2 = 1) :
+    ∃ (pp' : PP) (P' : PlainObj pp'), insertRR pp .nameServers rr = .ok (pp', none) ∧
+      P'.A = P.A ∧ P'.N = P.N ++ [rr] ∧ P'.R = P.R ∧ P'.qls = P.qls ∧ P'.q4 = P.q4 ∧
+      (∀ k, (k + 1 < 8 ∨ 8 + 1 < k) → get16 P'.hdr k = get16 P.hdr k) := by
+  obtain ⟨pp', P', h, a, b, c, d, e, f, _⟩ := insert_authority P rr hpc hsize hcount hqr
+  exact ⟨pp', P', h, a, b, c, d, e, f⟩
+
+/-- **insert (additional)** -/
+theorem insert_exact_additional {pp : PP} (P : PlainObj pp) (rr : Bytes) (hpc : PieceOK .additional rr P.o4 P.o4)
+    (hsize : pp.packet.length + rr.length ≤ 8192) (hcount : P.R.length < 65535) :
+    ∃ (pp' : PP) (P' : PlainObj pp'), insertRR pp .additional rr = .ok (pp', none) ∧
+      P'.A = P.A ∧ P'.N = P.N ∧ P'.R = P.R ++ [rr] ∧ P'.qls = P.qls ∧ P'.q4 = P.q4 ∧
+      (∀ k, (k + 1 < 10 ∨ 10 + 1 < k) → get16 P'.hdr k = get16 P.hdr k) := by
+  obtain ⟨pp', P', h, a, b, c, d, e, f, _⟩ := insert_additional P rr hpc hsize hcount
+  exact ⟨pp', P', h, a, b, c, d, e, f⟩
+
+/-- **delete** through a cursor on the record `rc` of a record section: exactly that record goes -/
+theorem delete_exact {pp : PP} (P : PlainObj pp) (sec : Section) (hs : sec.isRec = true) {ps1 ps2 : List Bytes} {rc : Bytes}
+    (hsplit : P.lst sec = ps1 ++ rc :: ps2) (c : Cursor) {ne : Nat} {ob oa : Bool}
+    (hr : RRAtPos pp.packet sec ⟨P.start sec + ps1.flatten.length, ne, P.start sec + ps1.flatten.length + rc.length⟩ ob oa)
+    (hoff : c.offset = some (P.start sec + ps1.flatten.length))
+    (hnext : c.offsetNext = P.start sec + ps1.flatten.length + rc.length) (hne : c.nameEnd = ne) :
+    ∃ (pp' : PP) (P' : PlainObj pp'),
+      deleteRR pp c = .ok { pp := pp', cur := { c with offsetNext := P.start sec + ps1.flatten.length, offset := none }, result := none } ∧
+      P'.lst sec = ps1 ++ ps2 ∧ (∀ s, s ≠ sec → P'.lst s = P.lst s) ∧ P'.qls = P.qls ∧ P'.q4 = P.q4 ∧
+      (∀ k, (k + 1 < sectionCountOffset sec ∨ sectionCountOffset sec + 1 < k) → get16 P'.hdr k = get16 P.hdr k) := by
+  obtain ⟨pp', P', h, a, b, c', d, e, _⟩ := P.delete_at sec hs hsplit c hr hoff hnext hne
+  exact ⟨pp', P', h, a, b, c', d, e⟩
+
+/-- **set_rr_ttl** -/
+theorem set_ttl_exact {pp : PP} (P : PlainObj pp) (sec : Section) (hs : sec.isRec = true) {ps1 ps2 : List Bytes} {rc : Bytes}
+    (hsplit : P.lst sec = ps1 ++ rc :: ps2) (c : Cursor) {ne : Nat} {ob oa : Bool}
+    (hr : RRAtPos pp.packet sec ⟨P.start sec + ps1.flatten.length, ne, P.start sec + ps1.flatten.length + rc.length⟩ ob oa)
+    (hoff : c.offset = some (P.start sec + ps1.flatten.length)) (hne : c.nameEnd = ne) (h41 : get16 pp.packet ne ≠ 41) (ttl : Nat) :
+    ∃ (owner : List (List UInt8)) (f8 rd : Bytes) (pp' : PP) (P' : PlainObj pp'),
+      rc = (encLabels owner ++ [0]) ++ f8 ++ put16 rd.length ++ rd ∧ f8.length = 8 ∧
+      setRrTtl pp c ttl = .ok pp' ∧
+      P'.lst sec = ps1 ++ ((encLabels owner ++ [0]) ++ (f8.take 4 ++ put32 ttl) ++ put16 rd.length ++ rd) :: ps2 ∧
+      (∀ s, s ≠ sec → P'.lst s = P.lst s) ∧ P'.qls = P.qls ∧ P'.q4 = P.q4 ∧ P'.hdr = P.hdr ∧
+      pp' = { pp with packet := pp'.packet } := P.set_ttl sec hs hsplit c hr hoff hne h41 ttl
+
+/-- **set_rr_ip** with an address of the record's family -/
+theorem set_ip_exact {pp : PP} (P : PlainObj pp) (sec : Section) (hs : sec.isRec = true) {ps1 ps2 : List Bytes} {rc : Bytes}
+    (hsplit : P.lst sec = ps1 ++ rc :: ps2) (c : Cursor) {ne : Nat} {ob oa : Bool}
+    (hr : RRAtPos pp.packet sec ⟨P.start sec + ps1.flatten.length, ne, P.start sec + ps1.flatten.length + rc.length⟩ ob oa)
+    (hoff : c.offset = some (P.start sec + ps1.flatten.length)) (hne : c.nameEnd = ne) (ip : Bytes)
+    (hfam : (get16 pp.packet ne = 1 ∧ ip.length = 4) ∨ (get16 pp.packet ne = 28 ∧ ip.length = 16)) :
+    ∃ (owner : List (List UInt8)) (f8 rd : Bytes) (pp' : PP) (P' : PlainObj pp'),
+      rc = (encLabels owner ++ [0]) ++ f8 ++ put16 rd.length ++ rd ∧ f8.length = 8 ∧ rd.length = ip.length ∧
+      setRrIp pp c ip = .ok (pp', none) ∧
+      P'.lst sec = ps1 ++ ((encLabels owner ++ [0]) ++ f8 ++ put16 rd.length ++ ip) :: ps2 ∧
+      (∀ s, s ≠ sec → P'.lst s = P.lst s) ∧ P'.qls = P.qls ∧ P'.q4 = P.q4 ∧ P'.hdr = P.hdr ∧
+      pp' = { pp with packet := pp'.packet } := P.set_ip sec hs hsplit c hr hoff hne ip hfam
+
+/-- **set_raw_name** with a well-formed pointer-free name -/
+theorem set_name_exact {pp : PP} (P : PlainObj pp) (sec : Section) (hs : sec.isRec = true) {ps1 ps2 : List Bytes} {rc : Bytes}
+    (hsplit : P.lst sec = ps1 ++ rc :: ps2) (c : Cursor) {ne : Nat} {ob oa : Bool}
+    (hr : RRAtPos pp.packet sec ⟨P.start sec + ps1.flatten.length, ne, P.start sec + ps1.flatten.length + rc.length⟩ ob oa)
+    (hoff : c.offset = some (P.start sec + ps1.flatten.length))
+    (hnext : c.offsetNext = P.start sec + ps1.flatten.length + rc.length) (hne : c.nameEnd = ne) (hsec : c.sec = sec)
+    (h41 : get16 pp.packet ne ≠ 41) (owner' : List (List UInt8)) (hgo' : GoodLabels owner')
+    (hsize : pp.packet.length + (labSum owner' + 1) - (ne - (P.start sec + ps1.flatten.length)) ≤ 65535) :
+    ∃ (owner : List (List UInt8)) (f8 rd : Bytes) (pp' : PP) (P' : PlainObj pp'),
+      rc = (encLabels owner ++ [0]) ++ f8 ++ put16 rd.length ++ rd ∧
+      setRawName pp c (encLabels owner' ++ [0]) =
+        mOk pp' (c.movedTo (P.start sec + ps1.flatten.length) (P.start sec + ps1.flatten.length + labSum owner' + 1)
+          (P.start sec + ps1.flatten.length + ((encLabels owner' ++ [0]) ++ f8 ++ put16 rd.length ++ rd).length)) ∧
+      P'.lst sec = ps1 ++ ((encLabels owner' ++ [0]) ++ f8 ++ put16 rd.length ++ rd) :: ps2 ∧
+      (∀ s, s ≠ sec → P'.lst s = P.lst s) ∧ P'.qls = P.qls ∧ P'.q4 = P.q4 ∧ P'.hdr = P.hdr ∧
+      pp'.cached = none ∧ pp'.ednsCount = pp.ednsCount ∧ pp'.extRcode = pp.extRcode ∧ pp'.ednsVersion = pp.ednsVersion ∧
+      pp'.extFlags = pp.extFlags ∧ pp'.maxPayload = pp.maxPayload :=
+  P.set_name sec hs hsplit c hr hoff hnext hne hsec h41 owner' hgo' hsize
+
+/-- **header setters** (`set_tid`, `set_flags`, `set_response`, `set_opcode`, `set_rcode`: each changes
+bytes 0–3 only, C12): the records, the question and the counts are untouched -/
+theorem header_exact {pp : PP} (P : PlainObj pp) (p' : Bytes) (hs : C12.sameExcept pp.packet p' 0 4)
+    (hqr : get16 p' 2 / 32768 % 2 = 0 → P.A = [] ∧ P.N = []) :
+    ∃ P' : PlainObj { pp with packet := p' }, P'.A = P.A ∧ P'.N = P.N ∧ P'.R = P.R ∧ P'.qls = P.qls ∧ P'.q4 = P.q4 ∧
+      P'.hdr = p'.take 12 := P.header_set p' hs hqr
+
+/-- **the decompress-first step** of `set_raw_name` / `delete` on an object that still has its
+parse-time flag: the plain object of the canonical pieces, the cursor on the same record -/
+theorem first_touch {pp : PP} {p : Bytes} {v : View} (F : Fresh pp p v) (L : C03.Layout p) (o : C05.Output p L)
+    (sec : Section) (hs : sec.isRec = true) {l1 l2 : List RecPos} {r : RecPos} {ps1 ps2 : List Bytes} {pc : Bytes}
+    (hl : L.recs sec = l1 ++ r :: l2) (hp : o.pieces sec = ps1 ++ pc :: ps2) (hlen : l1.length = ps1.length)
+    (c : Cursor) (hsec : c.sec = sec) (hoff : c.offset = some r.off) :
+    ∃ (v2 : View) (P : PlainObj (pp.rebased o.bytes v2)) (ne : Nat) (ob oa : Bool),
+      parse o.bytes = .ok v2 ∧ P.lst .answer = o.pa ∧ P.lst .nameServers = o.pn ∧ P.lst .additional = o.pr ∧
+      P.hdr = p.take 12 ∧ o.qc = (encLabels P.qls ++ [0]) ++ P.q4 ∧
+      RRAtPos o.bytes sec ⟨P.start sec + ps1.flatten.length, ne, P.start sec + ps1.flatten.length + pc.length⟩ ob oa ∧
+      uncompressAt pp c = mOk (pp.rebased o.bytes v2) (c.movedTo (P.start sec + ps1.flatten.length) ne (P.start sec + ps1.flatten.length + pc.length)) :=
+  uncompressAt_fresh F L o sec hs hl hp hlen c hsec hoff
+
+/-- `set_raw_name` on a flagged object = the decompress-first step, then `set_raw_name` on the plain object -/
+theorem set_name_flagged {pp pp1 : PP} {c c1 : Cursor} (name : Bytes) {n : Nat} (hn : checkCompressedName name 0 = .ok n)
+    (hmc : pp.maybeCompressed = true) (hun : uncompressAt pp c = mOk pp1 c1) (hmc1 : pp1.maybeCompressed = false) :
+    setRawName pp c name = setRawName pp1 c1 name := by
+  unfold setRawName
+  simp only [hn, hmc, if_true, hun, mOk, bind_ok, Option.isSome_none, Bool.false_eq_true, if_false, hmc1]
+
+/-- `delete` on a flagged object: exactly the record under the cursor goes (canonical forms) -/
+theorem delete_flagged {pp : PP} {p : Bytes} {v : View} (F : Fresh pp p v) (L : C03.Layout p) (o : C05.Output p L)
+    (sec : Section) (hs : sec.isRec = true) {l1 l2 : List RecPos} {r : RecPos} {ps1 ps2 : List Bytes} {pc : Bytes}
+    (hl : L.recs sec = l1 ++ r :: l2) (hp : o.pieces sec = ps1 ++ pc :: ps2) (hlen : l1.length = ps1.length)
+    (c : Cursor) (hsec : c.sec = sec) (hoff : c.offset = some r.off) :
+    ∃ (pp' : PP) (P' : PlainObj pp') (c' : Cursor),
+      deleteRR pp c = .ok { pp := pp', cur := c', result := none } ∧ c'.offset = none ∧ c'.sec = sec ∧
+      P'.lst sec = ps1 ++ ps2 ∧ (∀ s, s ≠ sec → P'.lst s = o.pieces s) ∧
+      o.qc = (encLabels P'.qls ++ [0]) ++ P'.q4 ∧
+      (∀ k, (k + 1 < sectionCountOffset sec ∨ sectionCountOffset sec + 1 < k) → get16 P'.hdr k = get16 (p.take 12) k) :=
+  delete_fresh F L o sec hs hl hp hlen c hsec hoff
+
 end Dns.C09
